@@ -3,7 +3,7 @@
 # Confirms the seeded change (demo fails with it / passes without it) in a scratch worktree of
 # /repo HEAD and runs the given checks against the changed tree. Prints a summary.
 SD=$1; NAME=$2; shift 2; CHECKS="$@"
-WT=${SEEDWT:-/tmp/seedrun}
+WT=${SEEDWT:-/tmp/seedrun-$$}
 export GOFLAGS=-mod=mod GOPROXY=off GOSUMDB=off GOTOOLCHAIN=local
 GO=/root/go/pkg/mod/golang.org/toolchain@v0.0.1-go1.25.13.linux-amd64/bin/go
 git -C /repo worktree remove --force $WT >/dev/null 2>&1
